@@ -1,5 +1,5 @@
 """C17 - TCP sends only inside its window and adapts it by the Reno/CUBIC rules"""
-from . import tcp as T, elements
+from . import tcp as T, elements, deps
 
 def check(ctx):
     T.run_tables(ctx, 'C17', [('CongestionControl', '__init__'), ('CongestionControl', 'timer_expired'),
@@ -13,6 +13,7 @@ def check(ctx):
                               ('TCPPacketGenerator', 'resend_packet')])
     elements.cwnd_writers(ctx, 'C17')
     elements.class_method_sets(ctx, 'C17', only=('CongestionControl', 'TCPReno', 'TCPCubic', 'TCPPacketGenerator'))
+    deps.element_layers(ctx, 'C17')
     return ('Static: the send guard next_seq + MSS <= min(buffered, last_ack + cwnd), the Reno/CUBIC hooks, the ACK '
             'dispatch in the sender\'s put (duplicate counting, dupack_over iff fast recovery was entered, third duplicate, '
             'further duplicates, new ACK with the Jacobson/Karels estimator: gains 1/8 and 1/4, RTO = srtt + 4 rttvar) and '
